@@ -188,6 +188,7 @@ def run(tier):
     scopes.append(("prop_a2_d2", enumerate_scope("lc_a2d2", 2, 2, "prop", 0, 16), 8 if quick else 1, 1))
     scopes.append(("quant_q%d" % (0 if quick else 1), enumerate_scope("lc_quant", 2, 1, "quant", 0 if quick else 1, 16),
                    1 if quick else 1, 4))
+    scopes.append(("wide_a3", enumerate_scope("lc_wide", 3, 1, "wide", 0, 16), 20 if quick else 2, 1))
     if not quick:
         scopes.append(("prop_a3_d2", enumerate_scope("lc_a3d2", 3, 2, "prop", 0, 16, timeout=3000), 12, 1))
     states = sum(s[1][3] for s in scopes)
